@@ -118,6 +118,37 @@ def neighbourhood(env, lp, npol, N, A, d, m=1, partial=0, labels='int', nnp=None
         env.ob('twin.false', False)
 
 
+def radius_fp(env, twin=False):
+    """the Radius boundary in IEEE arithmetic: stored rows on an integer grid at squared distances 1, 2, 3, 5, 6 from the
+    query, euclidean metric, the radius an arbitrary double in (0.5, 3): the neighbourhood must be the rows whose
+    *computed* euclidean distance is <= radius (boundary included), e.g. the row at distance sqrt(3) for radius =
+    sqrt(3) although sqrt(3) * sqrt(3) < 3 in doubles.  Only the radius is symbolic (pure QF_FP queries)."""
+    from scipy.spatial.distance import cdist as real_cdist
+    from .common import LP, NP
+    arms = [1, 2]
+    ctx = np.array([[1., 0., 0.], [1., 1., 0.], [1., 1., 1.], [2., 1., 0.], [2., 1., 1.]])
+    dec = np.array([1, 2, 1, 2, 1])
+    rew = np.array([1., 2., 4., 8., 16.])
+    q = np.zeros((1, 3))
+    radius = env.float64('radius', 0.5, 3.0)
+    mab = MAB()(list(arms), LP().UCB1(1.0), NP().Radius(radius, 'euclidean'), seed=3)
+    mab.fit(dec, rew, ctx)
+    out = mab._imp._predict_contexts(q, False, np.array([5]), 0)[0]
+    dists = real_cdist(ctx, q, metric='euclidean').reshape(-1)
+    members = [i for i in range(len(ctx)) if env.decide(float(dists[i]) <= radius)]
+    env.ob('fp.keys', [pyval(k) for k in out] == arms)
+    if not members:
+        env.ob('fp.empty_nan', all(is_nan(v) for v in out.values()))
+    else:
+        ref = MAB()(list(arms), LP().UCB1(1.0), seed=3)
+        ref.fit(dec[members], rew[members])
+        want = ref.predict_expectations()
+        for a in arms:
+            env.ob('fp.radius_members[%s]' % a, (not is_nan(out[a])) and float(out[a]) == float(want[a]))
+    if twin:
+        env.ob('twin.false', False)
+
+
 BOUNDS = {
     'quick': dict(stored_rows='3 + 1 by partial_fit', features='1-2', query_rows=1, arms=2, k='1-2',
                   metrics=['cityblock', 'sqeuclidean'], policies=['EpsilonGreedy(0)', 'UCB1', 'LinUCB']),
@@ -169,6 +200,10 @@ def scenarios(tier):
             out.append(Scenario('ucb1.%s.m2.A3' % npol, neighbourhood,
                                 dict(lp='ucb1', npol=npol, N=3, A=3, d=1, m=2, partial=1, labels='str'),
                                 weight=5000, max_paths=200000, shards=8))
+    out.append(Scenario('radius.float64.boundary', radius_fp, {}, weight=50, max_paths=500, setup=dict(no_tv=True),
+                        bounds=dict(np='radius:euclidean', radius='every float64 in (0.5, 3)', rows='5 concrete rows at squared '
+                                    'distances 1, 2, 3, 5, 6', lp='UCB1(1)')))
+    out.append(Scenario('twin.radius_fp', radius_fp, dict(twin=True), setup=dict(no_tv=True), twin=True))
     out.append(Scenario('twin.ucb1.radius', neighbourhood,
                         dict(lp='ucb1', npol='radius:cityblock', N=2, A=2, d=1, twin=True), twin=True))
     return out
